@@ -135,6 +135,18 @@ ssize_t write(int fd, const void *buf, size_t n)
 	return rwrite(fd, buf, n);
 }
 
+/* C19: when the key 0x1c (unbound in vi) is read from the terminal, emit a marker on fd 1: everything the
+ * editor wrote for the keys before it precedes the marker (each main-loop iteration commits its output) */
+ssize_t read(int fd, void *buf, size_t n)
+{
+	ssize_t (*rread)(int, void *, size_t) = dlsym(RTLD_NEXT, "read");
+	ssize_t (*rwrite)(int, const void *, size_t) = dlsym(RTLD_NEXT, "write");
+	ssize_t r = rread(fd, buf, n);
+	if (fd == 0 && r == 1 && *(unsigned char *) buf == 0x1c && getenv("NVFI_MARK"))
+		rwrite(1, "\0MARK\0", 6);
+	return r;
+}
+
 int close(int fd)
 {
 	int (*rclose)(int) = dlsym(RTLD_NEXT, "close");
